@@ -239,6 +239,52 @@ def h_internal_keyfetch(ctx):
     return obs
 
 
+def h_nonreply(ctx):
+    """outstanding: one application request and the library's own key upload.  A stanza that is NOT a reply (receipt, ack,
+    notification) arrives with an unconstrained id -- possibly the id of an outstanding request: no callback runs, it is
+    handled as an ordinary stanza, and the genuine replies still reach their callbacks afterwards"""
+    st, bottom, app, mgr = _stack()
+    N = SC.N()
+    bottom.inject(N("notification", {"id": "n1", "from": "s.whatsapp.net", "type": "encrypt", "t": "1400000000"}, [N("count", {"value": "3"})]))
+    up = [n for n in bottom.down if n.tag == "iq"]
+    req, body = _request("lastseen")
+    app.request(req, "r")
+    iqs = [n for n in bottom.down if n.tag == "iq"]
+    if len(up) != 1 or len(iqs) != 2:
+        return [("two requests outstanding (got %d)" % len(iqs), False)]
+    up_id, app_id = hooks.dict_get(up[0].attributes, "id"), hooks.dict_get(iqs[-1].attributes, "id")
+    nid = H.zstr(ctx, "nid")
+    kind = ctx.choice("stanza", ["receipt", "read-receipt", "ack", "status-notification"])
+    if kind == "receipt":
+        node = N("receipt", {"id": nid, "from": J, "t": "1400000000"})
+    elif kind == "read-receipt":
+        node = N("receipt", {"id": nid, "from": J, "t": "1400000000", "type": "read"})
+    elif kind == "ack":
+        node = N("ack", {"id": nid, "class": "message", "from": J, "t": "1400000000"})
+    else:
+        node = N("notification", {"id": nid, "from": J, "type": "status", "t": "1400000000", "notify": "nn", "offline": "0"}, [N("set", {}, None, b"hello")])
+    n_other, n_down = len(app.other), len(bottom.down)
+    raised = None
+    try:
+        bottom.inject(node)
+    except Exception as e:
+        raised = e
+    marked = [c for c in mgr.calls if c[0] == "set_prekeys_as_sent"]
+    obs = [("a non-reply stanza runs no request callback (%s)" % [c[:2] for c in app.calls], not app.calls and not marked and raised is None),
+           ("a non-reply stanza is handled as an ordinary stanza: one entity at the application (got %d)" % (len(app.other) - n_other), len(app.other) == n_other + 1)]
+    # the genuine replies afterwards
+    try:
+        bottom.inject(_reply(up_id, True, lambda: []))
+        bottom.inject(_reply(app_id, True, body))
+    except Exception as e:
+        obs.append(("genuine replies are still accepted (%s)" % type(e).__name__, False))
+        return obs
+    ok, err = _counts(app, "r")
+    obs.append(("afterwards the application request still gets its result exactly once (got %d)" % len(ok), len(ok) == 1 and not err))
+    obs.append(("afterwards the key upload is still confirmed exactly once", len([c for c in mgr.calls if c[0] == "set_prekeys_as_sent"]) == 1))
+    return obs
+
+
 def finding_key(case, label, values, where):
     import re
     m = re.match(r"step\[(.+)\]", case)
@@ -289,6 +335,7 @@ def cases(tier):
         for a in ("lastseen", "contact-sync", "media-upload", "group-create"):
             cs.append(dict(name="history[3req,3del,first=%s]" % a, fn=_first_kind(a), args=(3, 3, ("lastseen", "group-info", "picture-get", "contact-sync")), max_paths=400000, timeout_s=3400, weight=500))
         cs.append(dict(name="history[2req,3del,6kinds]", fn=h_history, args=(2, 3, ("lastseen", "group-info", "contact-sync", "picture-get", "media-upload", "group-create")), max_paths=50000, timeout_s=1200, weight=100))
+    cs.append(dict(name="nonreply[receipt/ack/notification with any id]", fn=h_nonreply))
     cs.append(dict(name="internal[key-upload]", fn=h_internal_keyupload))
     cs.append(dict(name="internal[key-fetch]", fn=h_internal_keyfetch))
     return cs
